@@ -79,7 +79,7 @@ def job_fp(res, n, nb, fptype, dt, margin):
     switches sides; next to the switch the defect is <= 4*e1."""
     bld = maps_build(); mod = load_module(bld, MAPS_MODS)
     pmin, pmax = -6.0, (6.5 if n % 2 == 0 else 6.0)
-    snap, R, pre = maps_world(bld, n, nb, 4, pmin=pmin, pmax=pmax)   # shifted energy axis: zero bin off-centre
+    snap, R, pre = maps_world(bld, n, nb, 4, pmin=pmin, pmax=pmax, qmin=-4.0, qmax=8.0)   # shifted energy axis: zero bin off-centre; position axis shifted differently (its zero bin is rows away)
     ex = Exec(mod, snap, RealDom()); st = State()
     e1 = z3.Real('e1'); st.pc += [e1 > 0, e1 <= Fraction(1, 4)]; st.ranges['e1'] = (Fraction(0), Fraction(1, 4))
     st = ex.run1(st, 'e_new_fp', [R['in'], R['out'], fptype, 1, e1, dt]); fpm = st.retval
@@ -143,7 +143,7 @@ def replayer(bld):
         elif what == 'fp':
             b = c['bunch']; data = [0.0] * (nb * n * n)
             for y, v in enumerate(c['col_data']): data[b * n * n + c['col'] * n + y] = float(v)
-            o = native_run(bld, {'what': 'fp', 'n': n, 'nb': nb, 'it': 4, 'seed': 7, 'fptype': c['fptype'], 'dt': c['dt'], 'e1': float(c['e1']), 'pmax': c['pmax'], 'data': data}, 'c01')
+            o = native_run(bld, {'what': 'fp', 'n': n, 'nb': nb, 'it': 4, 'seed': 7, 'fptype': c['fptype'], 'dt': c['dt'], 'e1': float(c['e1']), 'pmax': c['pmax'], 'pmin': -6.0, 'qmin': -4.0, 'qmax': 8.0, 'data': data}, 'c01')
         sin = sum(o['in']); sout = sum(o['out']); sabs = sum(abs(v) for v in o['in'])
         if what == 'idm': return (o['in'] != o['out'], 'native identity copy differs' if o['in'] != o['out'] else 'identical natively')
         allow = 4e-6 * sabs + 1e-6
